@@ -114,6 +114,7 @@ def run(ctx):
             addo({"kind": "rel", "rel": "isotope", "compound": ["dict", base], "variant": ["dict", variant], "density": rho, "E": E})
     for z in (chosen if quick else with_table):
         addo({"kind": "elsld", "z": z, "E": rng.choice(energies[:11])})
+        addo({"kind": "elsld", "z": z, "E": rng.choice(energies[:11]), "edited": True})
     for i in range(12 if quick else 120):
         z = rng.choice(with_table)
         addo({"kind": "refl", "compound": ["atom", z, 0, 0], "density": rng.choice([1.0, 2.33, 8.9, 19.3]),
